@@ -22,3 +22,14 @@ package nsx
 //vc:  invariant[C09] 1 "for _, c := range s.changes" !devFailure && accepted == old(accepted) + rangeindex + 1 && -1 <= rangeindex && rangeindex < len(s.changes) && len(s.changes) == old(len(s.changes))
 //vc:  set changesConfirmed = result == nil && !devFailure && accepted == old(accepted) + len(s.changes)
 //vc:  ensures[C09] @nilOnlyIfAllAccepted result == nil ==> changesConfirmed
+
+// ---- C18: groups and services of the other part are appended in order, nothing is lost ----
+//vc:func (*NsxConfig).MergeSpoc
+//vc:  ensures[C18] @groupsConcatenated len(n1.Groups) == len(old(n1.Groups)) + len(old(n2.Groups)) &&
+//vc:      (forall j int :: 0 <= j && j < len(old(n1.Groups)) ==> n1.Groups[j] == old(n1.Groups[j])) &&
+//vc:      (forall j int :: 0 <= j && j < len(old(n2.Groups)) ==> n1.Groups[len(old(n1.Groups)) + j] == old(n2.Groups[j]))
+//vc:  ensures[C18] @servicesConcatenated len(n1.Services) == len(old(n1.Services)) + len(old(n2.Services)) &&
+//vc:      (forall j int :: 0 <= j && j < len(old(n1.Services)) ==> n1.Services[j] == old(n1.Services[j])) &&
+//vc:      (forall j int :: 0 <= j && j < len(old(n2.Services)) ==> n1.Services[len(old(n1.Services)) + j] == old(n2.Services[j]))
+//vc:  invariant[C18] 1 "for _, p2 := range n2.Policies" len(n1.Policies) >= len(old(n1.Policies)) && (forall j int :: 0 <= j && j < len(old(n1.Policies)) ==> n1.Policies[j] == old(n1.Policies[j]))
+//vc:  ensures[C18] @existingPoliciesKeptInPlace len(n1.Policies) >= len(old(n1.Policies)) && (forall j int :: 0 <= j && j < len(old(n1.Policies)) ==> n1.Policies[j] == old(n1.Policies[j]))
